@@ -19,6 +19,12 @@ CHECKS = {
  "C04": ("exploration", "reference-model monitor with GC cycles interleaved, full probe after every cycle",
          "Generated histories interleave primary and index GC cycles (all thresholds, scan-free on/off, with and without a preceding flush, cycles stopped midway by a synthetic deadline and resumed) with ordinary calls; after every cycle every key is probed against the model and the history ends with reopen.",
          "cycles are driven synchronously through MultihashPrimary.GC and the verif-tagged index GC wrapper", "5 C04"),
+ "C05": ("exploration", "recorded client histories (atomic logical clock) checked per key with porcupine against the reference map, under stress, noise, depth-d delays and gates; race build",
+         "Real goroutines call the public API on keys concentrated in few buckets while the flusher and explicit flushes run; schedules are widened by hash-determined delays at hook points between the store's critical sections and by scripted gates; every call is recorded at the API boundary and each key's sub-history is checked for linearizability, plus error classes, reads after quiescence and fsck of the closed store. Class A (one writer per key) and class B (several) are generated separately.",
+         "schedules sampled, not enumerated; porcupine timeout = inconclusive", "5 C05"),
+ "C06": ("exploration", "as C05 with primary and index GC loops or background collectors and cache resizing running concurrently; race build",
+         "Same history oracle (GC is invisible to the model) on the multihash primary with 40-300 byte files so that collectors mark, merge, truncate, relocate and unlink while callers run; evidence reports GC hook events inside client activity.",
+         "one goroutine per harness-driven collector, never combined with background collectors", "5 C06"),
  "C07": ("exploration", "independent fsck reader evaluated at every quiescent point",
          "An independent parser of all on-disk formats evaluates the statement's invariant list after every Flush/Close of histories from the C01, C04 and C02 generators (post-crash and post-concurrency states are examined inside C03/C05/C06 with the same fsck).",
          "formats as read from the code (DESIGN.md appendix A); invariant exactly as stated", "5 C07"),
@@ -34,22 +40,24 @@ CHECKS = {
  "C11": ("exploration", "bounded-progress monitor over directory listings, StorageSize and fsck layout across GC cycles",
          "Liveness restated as bounded progress in harness-driven GC cycles: dead files must be released within 4 cycles, low-use files drained within live+4, growth bounded by relocations, and a fixed point reached after which nothing is written.",
          "progress counted in cycles with a Flush between; generous bounds", "5 C11"),
+ "C12": ("exploration", "gated interleavings of flushTick vs Flush + stress; oracle = state of the notice channel handed over by the registered hook",
+         "Liveness restated as bounded progress in flushes: the notice a writer registered must be closed once a Flush started after the registration has returned; decided by a non-blocking receive on the channel, never by wall-clock time. Gates place a flush between decision and registration (single writer), two writers around one flush, registration during a flush's commit.",
+         "flush failures not injected; gate expiry = inconclusive", "5 C12"),
  "C13": ("exploration", "multiset-conservation monitor over freelist append stream, hand-over batches and deleted bits",
          "With a flush after every mutating call the multiset of locations that stopped being current (from fsck's decoded layout) must equal the multiset of freelist entries appended (file + batches captured at the hand-over hook); consumed batches must be dead afterwards; no location marked twice or while current.",
          "sequential histories; locations never reused in the explored range", "5 C13"),
  "C14": ("exploration", "bounded-exhaustive + random + concurrent runs at the filecache API with a shadow table of lent handles",
          "All operation sequences up to the bound over three names and capacities incl. 0 are executed on real files; after every step the shadow table checks that lent handles are open and refer to their file, that Len/Cap/descriptor accounting identities hold and legitimate Closes succeed; a concurrent stress part (race build) checks that a held handle never fails with ErrClosed.",
          "eviction order not modelled; exhaustive within the stated bound only", "5 C14"),
+ "C16": ("exploration", "Go race detector (happens-before) over dense concurrent compositions of the public API, flusher, size queries, cache resizing and both collectors",
+         "Every execution of the race build is observed by the race detector; reports with a go-storethehash frame are verdicts, deduplicated by the pair of first store frames; runtime fatal errors end the worker and are attributed to the case.",
+         "only executed paths and observed happens-before relations", "5 C16"),
  "C15": ("exploration", "reference-model monitor at the blockstore interface incl. cancelled contexts, aliases and hash-on-read",
          "Generated blockstore histories over blocks of all sizes incl. empty, four hash functions, CIDv0/v1 x three codecs, mismatching (CID, bytes) pairs, live and cancelled contexts on every method and HashOnRead toggles are compared call by call with a map keyed by multihash and the expected error classes.",
          "digests >= 4 bytes; first write wins per multihash", "5 C15"),
 }
 
 NOT_YET = {
- "C05": "check under construction (concurrency engine; see DESIGN.md section 5)",
- "C06": "check under construction (concurrency engine; see DESIGN.md section 5)",
- "C12": "check under construction (see DESIGN.md section 5)",
- "C16": "check under construction (see DESIGN.md section 5)",
  "C17": "check under construction (see DESIGN.md section 5)",
 }
 
